@@ -157,8 +157,16 @@ def shift_cases(draw):
     N = draw(st.integers(1, 3))
     pair = st.tuples(_shift_component(R), _shift_component(C)).map(list)
     ipair = st.tuples(st.integers(-3 * R, 3 * R), st.integers(-3 * C, 3 * C)).map(list)
+    # dtype of the array / tensor that holds the shift vectors: "match" is the float type of the same
+    # width as the data (what the package's own callers pass); integer dtypes hold whole-pixel shifts
+    pos_dtype = draw(st.sampled_from(["match", "match", "float64", "float32", "int64", "int32", "int16"]))
+    if pos_dtype.startswith("int"):
+        pair = ipair
     return {
         "kind": "shift",
+        "pos_dtype": pos_dtype,
+        # write the same shifts in the other spelling (int <-> float) for one side of each law
+        "mix": draw(st.booleans()),
         "backend": draw(st.sampled_from(["torch", "np"])),
         "dtype": draw(st.sampled_from(["complex128", "complex64"])),
         "shape": ([M] if M else []) + [R, C],
@@ -358,6 +366,27 @@ def _check_shift(ctx, case):
     dtype = case["dtype"]
     fdt = np.float64 if dtype == "complex128" else np.float32
     is_torch = case["backend"] == "torch"
+    pos_dtype = case.get("pos_dtype", "match")
+    mix = bool(case.get("mix", False))
+    pdt = np.dtype(fdt if pos_dtype == "match" else pos_dtype)
+    int_pos = pdt.kind == "i"
+    if int_pos:  # whole-pixel shifts only
+        a, b = np.round(a), np.round(b)
+    # which spelling each law uses: P1 the case's dtype, P2 the other spelling where `mix` asks for it
+    dt_other = np.dtype(fdt) if int_pos else np.dtype(np.int64)
+    dt_b = dt_other if (mix and int_pos) else pdt  # b and a+b
+    dt_s = dt_other if (mix and not int_pos) else pdt  # the integer shifts s (s - a stays in P1)
+    if not int_pos and dt_s.kind != "i":
+        dt_s = pdt
+
+    def _is_hi(dt):
+        # the library multiplies a float32 frequency grid with the positions: numpy promotes with
+        # float64 / int32 / int64 positions to float64, torch keeps float32 unless positions are float64
+        if dtype != "complex128":
+            return False
+        return dt == np.float64 or (not is_torch and dt in (np.dtype(np.int64), np.dtype(np.int32)))
+
+    prec = "complex128" if all(_is_hi(d) for d in (pdt, dt_b, dt_s)) else "complex64"
 
     nonint_even = bool(
         np.any((a[:, 0] != np.round(a[:, 0])) & (R % 2 == 0)) or np.any((a[:, 1] != np.round(a[:, 1])) & (C % 2 == 0))
@@ -370,7 +399,12 @@ def _check_shift(ctx, case):
         classes.append("shift:noninteger_on_even_axis")
     if float(np.abs(a).max()) > max(R, C):
         classes.append("shift:beyond_one_period")
-    ctx.record(case, nonint_even, classes)
+    classes.append("shift:positions_" + str(pdt))
+    if int_pos:
+        classes.append("shift:integer_dtype_positions")
+    if dt_b != pdt or dt_s != pdt:
+        classes.append("shift:mixed_int_float_spelling")
+    ctx.record(case, nonint_even or int_pos or dt_b != pdt or dt_s != pdt, classes)
 
     x = _cplx(case["seed"], shape, case["scale"], dtype)
     x64 = x.astype(np.complex128)
@@ -378,25 +412,30 @@ def _check_shift(ctx, case):
     def arr(v):
         return Q.torch.tensor(v) if is_torch else v
 
-    def pos(v):
-        v = np.asarray(v, dtype=fdt)
+    def pos(v, dt=pdt):
+        v = np.asarray(v)
+        if np.dtype(dt).kind == "i":
+            if not np.array_equal(v, np.round(v)):
+                raise core.HarnessError("non-integer shift for an integer position dtype")
+            v = np.round(v)
+        v = v.astype(dt)
         return Q.torch.tensor(v) if is_torch else v
 
     with ctx.sut(case, "fourier_shift_expand"):
         ya = Q.pu.fourier_shift_expand(arr(x), pos(a))
-        yab = Q.pu.fourier_shift_expand(arr(x), pos(a + b))
-        ys = Q.pu.fourier_shift_expand(arr(x), pos(s))
+        yab = Q.pu.fourier_shift_expand(arr(x), pos(a + b, dt_b))
+        ys = Q.pu.fourier_shift_expand(arr(x), pos(s, dt_s))
         # second shift applied per position to the already shifted array
-        comp = [Q.pu.fourier_shift_expand(ya[n], pos(b[n : n + 1]))[0] for n in range(N)]
+        comp = [Q.pu.fourier_shift_expand(ya[n], pos(b[n : n + 1], dt_b))[0] for n in range(N)]
         comp_int = [Q.pu.fourier_shift_expand(ya[n], pos((s[n] - a[n])[None]))[0] for n in range(N)]
         ramp_a = Q.pu.fourier_translation_operator(pos(a), shape)
-        ramp_b = Q.pu.fourier_translation_operator(pos(b), shape)
-        ramp_ab = Q.pu.fourier_translation_operator(pos(a + b), shape)
+        ramp_b = Q.pu.fourier_translation_operator(pos(b, dt_b), shape)
+        ramp_ab = Q.pu.fourier_translation_operator(pos(a + b, dt_b), shape)
         per_mode = None
         if len(shape) == 3:
             # one shift per mode, no broadcasting (the way the probe centring constraint calls it)
             sm = s[np.arange(shape[0]) % N]
-            per_mode = Q.pu.fourier_shift_expand(arr(x), pos(sm), expand_dim=False)
+            per_mode = Q.pu.fourier_shift_expand(arr(x), pos(sm, dt_s), expand_dim=False)
     ya_n = _np(ya)
     want_shape = (N,) + shape
     for name, y in (("T_a x", ya_n), ("T_{a+b} x", _np(yab)), ("T_s x", _np(ys))):
@@ -411,7 +450,7 @@ def _check_shift(ctx, case):
     compi_n = np.stack([_np(c) for c in comp_int]).astype(np.complex128)
 
     l2 = _l2(x64)  # per mode (or scalar)
-    rel = 1e-10 if dtype == "complex128" else 1e-4
+    rel = 1e-10 if prec == "complex128" else 1e-4
     # 1. energy, per position and mode
     e0 = l2**2
     _judge(case, "shift", np.abs(_l2(ya_n) ** 2 - e0[None]), rel * e0[None] * np.ones((N,) + e0.shape), "energy of T_a x vs x")
@@ -419,16 +458,16 @@ def _check_shift(ctx, case):
     ra, rb, rab = (_np(r).astype(np.complex128) for r in (ramp_a, ramp_b, ramp_ab))
     _judge(case, "shift", np.abs(np.abs(ra) - 1.0), rel, "|translation operator| == 1")
     amax = float(np.abs(np.concatenate([a, b])).max())
-    ctol = rel if dtype == "complex128" else 1e-5 * (1.0 + amax) + 2e-5
+    ctol = rel if prec == "complex128" else 1e-5 * (1.0 + amax) + 2e-5
     _judge(case, "shift", np.abs(ra * rb - rab), ctol, "operator(a)*operator(b) == operator(a+b)")
     # 3. composition on arrays
     l2n = np.broadcast_to(l2, ya_n.shape[:-2])[..., None, None]
-    ctol_x = (rel * (1.0 + amax) if dtype == "complex128" else 1e-5 * (1.0 + amax) + 2e-5) * l2n
+    ctol_x = (rel * (1.0 + amax) if prec == "complex128" else 1e-5 * (1.0 + amax) + 2e-5) * l2n
     _judge(case, "shift", np.abs(comp_n - yab_n), ctol_x * np.ones(comp_n.shape), "T_b T_a x == T_{a+b} x")
     # 4. integer shifts are circular rolls
     roll = np.stack([np.roll(x64, (int(s[n, 0]), int(s[n, 1])), axis=(-2, -1)) for n in range(N)])
     smax = np.abs(s).max(axis=1).astype(np.float64).reshape((N,) + (1,) * (roll.ndim - 1))
-    _judge(case, "shift", np.abs(ys_n - roll), _shift_tol(dtype, smax, l2n) * np.ones(roll.shape), "integer shift == np.roll")
+    _judge(case, "shift", np.abs(ys_n - roll), _shift_tol(prec, smax, l2n) * np.ones(roll.shape), "integer shift == np.roll")
     if per_mode is not None:
         pm_n = _np(per_mode)
         if tuple(pm_n.shape) != shape:
@@ -439,13 +478,13 @@ def _check_shift(ctx, case):
             case,
             "shift",
             np.abs(pm_n.astype(np.complex128) - roll_m),
-            _shift_tol(dtype, smax_m, l2[:, None, None]) * np.ones(roll_m.shape),
+            _shift_tol(prec, smax_m, l2[:, None, None]) * np.ones(roll_m.shape),
             "per-mode integer shift (expand_dim=False) == np.roll",
         )
     # 5. a sub-pixel shift followed by the complementary shift is the integer roll
     s2 = (np.abs(a).max(axis=1) + np.abs(s - a).max(axis=1)).reshape(smax.shape)
     _judge(
-        case, "shift", np.abs(compi_n - roll), _shift_tol(dtype, s2, l2n) * np.ones(roll.shape), "T_{s-a} T_a x == np.roll(x, s)"
+        case, "shift", np.abs(compi_n - roll), _shift_tol(prec, s2, l2n) * np.ones(roll.shape), "T_{s-a} T_a x == np.roll(x, s)"
     )
 
 
